@@ -299,3 +299,30 @@ Definition import_vstacksecret (old : list (N * Z)) (s : bytes) : option (list (
     end
   | None => None
   end.
+
+(* ---- TMCG_CardSecret:  crs|k|w|r_00|b_00|r_01|b_01|...|  (two k x w matrices, entries interleaved) ---- *)
+Fixpoint pair_up (l : list Z) : list (Z * Z) :=
+  match l with a :: b :: r => (a, b) :: pair_up r | _ => [] end.
+Definition unpair (l : list (Z * Z)) : list Z := flat_map (fun p => [fst p; snd p]) l.
+
+Definition export_tsecret (c : list (list (Z * Z))) : bytes :=
+  magic_crs ++ [bar] ++ encode_dec (N.of_nat (length c)) ++ [bar]
+  ++ encode_dec (N.of_nat (length (hd [] c))) ++ [bar] ++ write_fields (concat (map unpair c)).
+
+Definition import_tsecret (s : bytes) : option (list (list (Z * Z))) :=
+  match cm s magic_crs bar with
+  | Some r0 =>
+    match import_dim r0 1 (Z.to_N TMCG_MAX_PLAYERS) with
+    | Some (k, r1) =>
+      match import_dim r1 1 (Z.to_N TMCG_MAX_TYPEBITS) with
+      | Some (w, r2) =>
+        match read_fields (N.to_nat k * (2 * N.to_nat w)) r2 with
+        | Some (zs, _) => Some (map pair_up (chunk (N.to_nat k) (2 * N.to_nat w) zs))
+        | None => None
+        end
+      | None => None
+      end
+    | None => None
+    end
+  | None => None
+  end.
